@@ -10,6 +10,7 @@ import Pangaea.Drv.C05
 import Pangaea.Drv.C09
 import Pangaea.Drv.C12
 import Pangaea.Drv.C18
+import Pangaea.Drv.C13
 
 def dispatch (line : String) : String :=
   let toks := (line.trimAscii.toString.splitOn " ").filter (· ≠ "")
@@ -26,6 +27,7 @@ def dispatch (line : String) : String :=
     | "C09" :: rest => Pangaea.Drv.C09.handle rest
     | "C12" :: rest => Pangaea.Drv.C12.handle rest
     | "C18" :: rest => Pangaea.Drv.C18.handle rest
+    | "C13" :: rest => Pangaea.Drv.C13.handle rest
     | _ => ("bad-op", "bad-op")
   r.1 ++ "\t" ++ r.2
 
